@@ -4,6 +4,8 @@ import NngModel.Model.Hostile
 import NngModel.Spec.Hostile
 import NngModel.Proofs.SpStream
 import NngModel.Proofs.BacktracePair
+import NngModel.Generated.Base
+import NngModel.Generated.C01
 namespace Nng.Hostile
 open Nng Nng.Sp Nng.HostileSpec
 
